@@ -146,6 +146,37 @@ def load_catalogue(props):
     return muts
 
 
+def summary(prop, jobs=16):
+    """Armedness summary for one property (used by the thorough tier; never changes a verdict)."""
+    muts = load_catalogue([prop.upper()])
+    if not muts:
+        return {"variants": 0}
+    base = tempfile.mkdtemp(prefix="xv-selftest-", dir="/dev/shm" if os.path.isdir("/dev/shm") else None)
+    try:
+        for pr in sorted({(m["prop"], m.get("tier", "quick")) for m in muts}):
+            baseline(pr[0], base, pr[1])
+        with cf.ThreadPoolExecutor(max_workers=jobs) as ex:
+            res = list(ex.map(lambda m: run_one(m, base), muts))
+    finally:
+        shutil.rmtree(base, ignore_errors=True)
+        _BASELINE.clear()
+    out = {"mutants_applicable": 0, "mutants_caught": 0, "benign_applicable": 0, "benign_silent": 0, "problems": [], "caught": []}
+    for m, status, info in res:
+        if status == "n/a":
+            continue
+        if m.get("benign"):
+            out["benign_applicable"] += 1
+            out["benign_silent"] += status == "ok"
+        else:
+            out["mutants_applicable"] += 1
+            out["mutants_caught"] += status == "ok"
+            if status == "ok":
+                out["caught"].append(f"{m['id']}: {m.get('desc', '')}")
+        if status != "ok":
+            out["problems"].append(f"{m['id']}: {status}")
+    return out
+
+
 def main(props, jobs=16, verbose=False):
     props = [p.upper() for p in props]
     muts = load_catalogue(props)
